@@ -19,7 +19,7 @@ func init() {
 			"K2 every grant (reserved += x / running[m]=…) is dominated in the same critical section by the capacity test for the same x, fast path also by an empty queue, oversize requests rejected before queuing, " +
 			"K3 each successful Acquire in the local job manager is followed on all paths to exit by Release of the same semaphore and amount; remote submission is dominated by a successful slot acquire, " +
 			"K4 amounts acquired derive from GetSystemReqs and the stores of Threads/MemGB there are clamped to the configured limits, " +
-			"K5 no lost wake-up: each decrease of reserved / change of curSize / delete from running is followed by runJobs / Signal before the unlock; FIFO head-of-line rule in runJobs; a waiter is queued only after the capacity test was crossed since the last acquisition of the mutex (test and enqueue are one critical section), " +
+			"K5 no lost wake-up: each decrease of reserved / change of curSize / delete from running is followed by runJobs / Signal before the unlock; FIFO head-of-line rule in runJobs; a waiter is queued only after the capacity test was crossed since the last acquisition of the mutex (test and enqueue are one critical section); every return after a cond.Wait() passes the wake-up on (explicit or deferred Signal/Broadcast), " +
 			"K6 the acquisition order of the four local semaphores is the same on every path. " +
 			"NOT decided: arithmetic of UpdateFreeUsed, curSize<=maxSize through UpdateSize, progress of the run loop.",
 		Assumptions: commonAssumptions,
@@ -384,6 +384,7 @@ func runC12(c *an.Ctx) {
 
 	c12Local(c)
 	c12Remote(c)
+	c12Baton(c, fns)
 }
 
 // loadBefore reports whether the field load v happens before the store st on
